@@ -18,6 +18,7 @@ import (
 type writeRoles struct {
 	valWriter, rootWriter, itemWriter, nodeWriter *ssa.Function
 	itemPass, nodePass, writeBoth                 *ssa.Function
+	writeBothAll                                  []*ssa.Function
 	problems                                      []string
 }
 
@@ -93,6 +94,13 @@ func (w *World) writeRoles() *writeRoles {
 	}
 	for _, f := range w.Funcs {
 		if w.InLib(f) && ro.itemPass != nil && ro.nodePass != nil && callsFn(f, ro.itemPass) && callsFn(f, ro.nodePass) && f != ro.itemPass && f != ro.nodePass {
+			// every function that runs both passes itself is a "write of one collection": the
+			// unexported write(root) today; Flush and Write themselves once it is inlined
+			ro.writeBothAll = append(ro.writeBothAll, f)
+		}
+	}
+	for _, f := range ro.writeBothAll {
+		if ro.writeBoth == nil || w.Name(f) == "(*Collection).write" {
 			ro.writeBoth = f
 		}
 	}
@@ -104,6 +112,26 @@ func (w *World) writeRoles() *writeRoles {
 	sort.Strings(ro.problems)
 	w.cache["writeRoles"] = ro
 	return ro
+}
+
+// isDataWrite: call c (inside fn) writes one collection's tree: a call of a function that
+// runs both passes, or — when fn runs the passes itself — the node pass.
+func (ro *writeRoles) isDataWrite(c *ssa.Call, fn *ssa.Function) bool {
+	callee := c.Common().StaticCallee()
+	if callee == nil {
+		return false
+	}
+	for _, f := range ro.writeBothAll {
+		if callee == f && f != fn {
+			return true
+		}
+	}
+	for _, f := range ro.writeBothAll {
+		if f == fn && callee == ro.nodePass {
+			return true
+		}
+	}
+	return false
 }
 
 func rolesOrFail(w *World, r *Report, rule string) *writeRoles {
@@ -175,7 +203,7 @@ func ruleO1(w *World, r *Report) {
 	// all data writes precede: the write loop's calls dominate the root call
 	n := 0
 	eachInstr(flush, func(in ssa.Instruction) {
-		if c, ok := in.(*ssa.Call); ok && c.Common().StaticCallee() == ro.writeBoth {
+		if c, ok := in.(*ssa.Call); ok && ro.isDataWrite(c, flush) {
 			n++
 			r.Check(instrDominates(c, rc) || reachesInstr(flush, c, rc), rule, fmt.Sprintf("(*Store).Flush › data write#%d precedes the root record", n), w.InstrPos(c), "the collection write can only execute before the root-record write", "a collection write is not ordered before the root-record write")
 		}
@@ -372,20 +400,22 @@ func ruleO4(w *World, r *Report) {
 	if ro == nil {
 		return
 	}
-	// O4a
-	var ic, nc *ssa.Call
-	eachInstr(ro.writeBoth, func(in ssa.Instruction) {
-		if c, ok := in.(*ssa.Call); ok {
-			switch c.Common().StaticCallee() {
-			case ro.itemPass:
-				ic = c
-			case ro.nodePass:
-				nc = c
+	// O4a: in every function that runs both passes
+	for _, wb := range ro.writeBothAll {
+		var ic, nc *ssa.Call
+		eachInstr(wb, func(in ssa.Instruction) {
+			if c, ok := in.(*ssa.Call); ok {
+				switch c.Common().StaticCallee() {
+				case ro.itemPass:
+					ic = c
+				case ro.nodePass:
+					nc = c
+				}
 			}
-		}
-	})
-	okA := ic != nil && nc != nil && instrDominates(ic, nc) && sameVal(ic.Common().Args[1], nc.Common().Args[1])
-	r.Check(okA, rule, w.Name(ro.writeBoth)+" › item pass dominates node pass, same root", w.Pos(ro.writeBoth.Pos()), "items are persisted before any node record that embeds their locations", "the node pass is not dominated by the item pass on the same root: node records would embed empty item locations")
+		})
+		okA := ic != nil && nc != nil && instrDominates(ic, nc) && sameVal(ic.Common().Args[1], nc.Common().Args[1])
+		r.Check(okA, rule, w.Name(wb)+" › item pass dominates node pass, same root", w.Pos(wb.Pos()), "items are persisted before any node record that embeds their locations", "the node pass is not dominated by the item pass on the same root: node records would embed empty item locations")
+	}
 	// O4b for both passes
 	fps := map[*ssa.Function][]string{}
 	for _, pass := range []*ssa.Function{ro.itemPass, ro.nodePass} {
@@ -535,26 +565,38 @@ func ruleO6(w *World, r *Report) {
 		if !ok {
 			return
 		}
-		switch c.Common().StaticCallee() {
-		case ro.rootWriter:
+		callee := c.Common().StaticCallee()
+		flushRunsPasses := false
+		for _, f := range ro.writeBothAll {
+			if f == flush {
+				flushRunsPasses = true
+			}
+		}
+		switch {
+		case callee == ro.rootWriter:
 			arg := c.Common().Args[len(c.Common().Args)-1]
 			r.Check(sameVal(arg, pinMap), rule, "(*Store).Flush › root record lists the pinned versions", w.InstrPos(in), "the root-record writer receives the very map of pinned versions", "the root-record writer does not receive the map of versions that were pinned and written: it may name versions whose nodes were never persisted")
-		case ro.writeBoth:
+		case ro.isDataWrite(c, flush) || (flushRunsPasses && callee == ro.itemPass):
 			// argument: rnls[name].root, receiver coll[name], with name an element of the sorted names
-			arg := c.Common().Args[1]
-			base, isRoot := isLoadOfField(arg, "rootNodeLoc", "root")
 			okArg := false
-			if isRoot {
-				if lk, isLk := base.(*ssa.Lookup); isLk && sameVal(lk.X, pinMap) {
-					okArg = true
-					// receiver looked up under the same name
-					if rl, isRl := c.Common().Args[0].(*ssa.Lookup); !isRl || !sameVal(rl.Index, lk.Index) {
-						okArg = false
+			if len(c.Common().Args) >= 2 {
+				arg := c.Common().Args[1]
+				base, isRoot := isLoadOfField(arg, "rootNodeLoc", "root")
+				if isRoot {
+					if lk, isLk := base.(*ssa.Lookup); isLk && sameVal(lk.X, pinMap) {
+						okArg = true
+						// receiver looked up under the same name
+						if rl, isRl := c.Common().Args[0].(*ssa.Lookup); !isRl || !sameVal(rl.Index, lk.Index) {
+							okArg = false
+						}
+						_ = pinKey
 					}
-					_ = pinKey
 				}
 			}
 			r.Check(okArg, rule, "(*Store).Flush › writes the pinned version of each collection", w.InstrPos(in), "coll[name].write(rnls[name].root)", "Flush does not write the version it pinned under that name (e.g. it re-reads the collection's current root): the root record and the written nodes can disagree")
+			if callee == ro.itemPass {
+				return
+			}
 			// O7: every iteration writes
 			for _, lp := range loopsOf(flush) {
 				if lp.body[in.Block()] {
@@ -568,7 +610,7 @@ func ruleO6(w *World, r *Report) {
 		default:
 			// any other route from Flush into the tree writer (the exported Write wrapper,
 			// a helper that re-reads the collection's root) writes a version Flush did not pin
-			if callee := c.Common().StaticCallee(); callee != nil && callee != ro.rootWriter && w.G.ReachFrom(callee).Set[ro.writeBoth] {
+			if callee != nil && callee != ro.rootWriter && w.G.ReachFrom(callee).Set[ro.nodePass] {
 				r.Bad(rule, "(*Store).Flush › writes the pinned version of each collection", w.InstrPos(in), "Flush reaches the tree writer through "+w.Name(callee)+", which does not receive the version pinned under that name: a mutation between the pin and this call makes the root record name a version whose nodes were never written")
 			}
 		}
